@@ -11,4 +11,10 @@ package cache
 func Cache.Get
   assumes result_1 == pathhas(self, bytes(key))
   assumes result_1 ==> bytes(result_0) == pathval(self, bytes(key))
+
+// (ghost bookkeeping: how many entries were put; the cache's own storage is outside the
+// modelled heap, a Put changes nothing else a caller can see)
+func ModifiableCache.Put
+  modifies cachePuts
+  assumes cachePuts == old(cachePuts) + 1
 @*/
